@@ -1281,7 +1281,13 @@ func (w *Wallet) selectProofsForAmount(
 		if inactiveKeysetProofs.Amount() < amount {
 			selectedProofs = inactiveKeysetProofs
 		} else {
-			selectedProofs, _ = selectProofsToSend(inactiveKeysetProofs, amount, mint, includeFees)
+			var err error
+			selectedProofs, err = selectProofsToSend(inactiveKeysetProofs, amount, mint, includeFees)
+			if err != nil {
+				// inactive proofs cover the amount but not their own fees on top of it:
+				// take all of them and get the rest from the active keyset
+				selectedProofs = inactiveKeysetProofs
+			}
 		}
 		if includeFees {
 			fees = uint64(feesForProofs(selectedProofs, mint))
